@@ -346,6 +346,50 @@ def finish(ctx, level, obligations, discharged, rule, samples, distinct_nontrivi
         rc, discharged, obligations, cov["evaluations"], cov["correspondence_diffs"], len(ctx.failures), len(ctx.known_hits), len(ctx.broken)))
     return rc
 
+# ------------------------------------------------------------------ kernel-checked tie of an abstract (FloatSpec) model
+def f32_to_rat(bits):
+    """Lean term (rational literal) of the finite IEEE binary32 value with this bit pattern"""
+    import struct
+    from fractions import Fraction
+    fr = Fraction(struct.unpack("<f", struct.pack("<I", bits & 0xFFFFFFFF))[0])
+    return "(%d / %d : ℚ)" % (fr.numerator, fr.denominator) if fr >= 0 else "(-%d / %d : ℚ)" % (-fr.numerator, fr.denominator)
+
+def kernel_tie(ctx, label, imports, opens, typ, claims, batch=48):
+    """claims: [(lhs, rhs, tag)] -- closed computable Lean terms of type `typ`.  Every `lhs = rhs` is checked by the Lean
+    KERNEL (`decide +kernel`, no native code).  Used to compare an abstract float model of the theorems (Lemmas/CxxFloat.lean),
+    instantiated with the genuine IEEE rounding FloatSpec.binary32 / binary64 (Basic/FloatNearest.lean), with what the
+    implementation returned on the same inputs.  A refuted claim is a broken correspondence (abstract model != code).
+    Returns the number of confirmed claims."""
+    if not claims: return 0
+    def check(groups):
+        f = os.path.join(ctx.scratch, "Tie_%s_%s_%d.lean" % (ctx.prop, re.sub(r"\W", "_", label), len(os.listdir(ctx.scratch))))
+        lines = ["import %s" % m for m in imports] + ["open %s" % " ".join(opens)] if opens else ["import %s" % m for m in imports]
+        starts = []
+        for g in groups:
+            starts.append(len(lines) + 1)
+            lines.append("example : ([%s] : List %s) = [%s] := by decide +kernel" % (", ".join(c[0] for c in g), typ, ", ".join(c[1] for c in g)))
+        with open(f, "w") as fh: fh.write("\n".join(lines) + "\n")
+        rc, out = lake(ctx, ["env", "lean", f])
+        badlines = {int(m.group(1)) for m in re.finditer(r":(\d+):\d+: error", out)}
+        if rc != 0 and not badlines: return None, out
+        return [i for i, st in enumerate(starts) if st in badlines], out
+    groups = [claims[i:i + batch] for i in range(0, len(claims), batch)]
+    bad, out = check(groups)
+    if bad is None:
+        ctx.broken.append(("correspondence", "kernel-tie %s" % label, "lean failed: " + out[-600:])); return 0
+    refuted = []
+    if bad:
+        single = [[c] for i in bad for c in groups[i]]
+        bad1, out1 = check(single)
+        refuted = [single[i][0] for i in (bad1 or [])] if bad1 is not None else [c for g in single for c in g]
+    for lhs, rhs, tag in refuted[:8]:
+        ctx.broken.append(("correspondence", "kernel-tie %s: %s" % (label, tag), "abstract model %s is not the implementation's value %s" % (lhs[:200], rhs[:80])))
+        ctx.log("kernel tie broken (%s): %s: %s =/= %s" % (label, tag, lhs[:160], rhs[:60]))
+    t = ctx.cov.setdefault("kernel_tie", {"claims": 0, "confirmed": 0})
+    t["claims"] += len(claims); t["confirmed"] += len(claims) - len(refuted)
+    ctx.log("kernel tie %s: %d/%d abstract-model values confirmed against the implementation by the Lean kernel" % (label, len(claims) - len(refuted), len(claims)))
+    return len(claims) - len(refuted)
+
 TRUSTED_BASE = [
     "Lean 4.33.0 kernel (theorems are about the Lean model, not about the C++ directly)",
     "axioms: propext, Classical.choice, Quot.sound only (audited with #print axioms on every run); no native_decide / bv_decide / own axioms / sorry",
